@@ -9,6 +9,7 @@ mod props_ipa;
 mod props_hyrax;
 mod props_lincode;
 mod props_mlpc;
+mod props_default;
 mod props_kzg;
 mod props_c04;
 mod props_c06;
@@ -193,6 +194,7 @@ fn main() {
         props_hyrax::run(&mut ctx, &prop);
         props_lincode::run(&mut ctx, &prop);
         props_mlpc::run(&mut ctx, &prop);
+        props_default::run(&mut ctx, &prop);
         props_c15::run_prop(&mut ctx, &prop);
     }
     ctx.flush_model(&format!("{}-final", prop));
